@@ -24,6 +24,7 @@ for cfg in ("E", "D"):
         sig = "(%s) -> %s" % (", ".join(fn.j.get("inputs", [])), fn.j.get("output", ""))
         out.setdefault(fn.crate, {})[re.sub(r"#\d+$", "", p)] = sig
 adts = {}
+enums = {}
 for cfg in ("E", "D"):
     d, info = build.build(cfg)
     f = Facts(d, info)
@@ -31,8 +32,11 @@ for cfg in ("E", "D"):
         for a in cd["adts"]:
             if a["kind"] == "struct" or len(a["variants"]) == 1:
                 adts.setdefault(crate, {})[a["path"]] = [[x["name"], x["ty"]] for x in a["variants"][0]["fields"]]
+            elif len(a["variants"]) > 1:
+                enums.setdefault(crate, {})[a["path"]] = [[v["name"], [x["ty"] for x in v["fields"]]] for v in a["variants"]]
 res = {k: dict(sorted(v.items())) for k, v in sorted(out.items())}
 res["__adts__"] = adts
+res["__enums__"] = enums
 statics = {}
 for cfg in ("E", "D"):
     d, info = build.build(cfg)
